@@ -175,6 +175,36 @@ def _limited(templates: dict[str, str], limits: dict[str, Any], main: str, data:
         return ("foreign", type(e).__name__ + ":" + str(e)[:60])
 
 
+# ---- observed nesting: how many render contexts are actually wrapped around each other (the `parent` chain) and how
+# many namespaces one context's scope holds. Measured by wrapping the two methods in this process (no hook in /repo).
+_DEPTH = {"chain": 0, "scope": 0}
+
+
+def _install_depth_probe() -> None:
+    if getattr(RenderContext, "_verif_probe", False):
+        return
+    orig_copy = RenderContext.copy
+    orig_extend = RenderContext.extend
+
+    def copy(self: Any, *a: Any, **k: Any) -> Any:
+        ctx = orig_copy(self, *a, **k)
+        n, c = 0, ctx
+        while c.parent is not None:
+            n += 1
+            c = c.parent
+        _DEPTH["chain"] = max(_DEPTH["chain"], n)
+        return ctx
+
+    def extend(self: Any, *a: Any, **k: Any) -> Any:
+        cm = orig_extend(self, *a, **k)
+        _DEPTH["scope"] = max(_DEPTH["scope"], self.scope.size() + 1)
+        return cm
+
+    RenderContext.copy = copy  # type: ignore[method-assign]
+    RenderContext.extend = extend  # type: ignore[method-assign]
+    RenderContext._verif_probe = True  # type: ignore[attr-defined]
+
+
 def product_bound(lengths: tuple[int, ...]) -> int:
     b = 1
     for n in lengths:
@@ -251,6 +281,77 @@ def check_nest(kinds: tuple[str, ...], lengths: tuple[int, ...], res: ShardResul
     return out
 
 
+# ------------------------------------------------------------------ sequels: a nest rendered AFTER an earlier construct
+# in the same render context. The earlier construct is left in an unusual way (break / continue escaping a partial, an
+# interrupt inside tablerow / capture / macro); whatever bookkeeping it did must be undone before the next nest starts.
+
+PREFIXES: list[tuple[str, dict[str, str], int]] = [
+    # (source, partial templates, product-of-lengths bound of the prefix's own nest); `its` has 3 items
+    ("{% for i in (1..2) %}{% include 'xb' for its %}|{% endfor %}", {"xb": "{{ xb }}{% if xb == 2 %}{% break %}{% endif %},"}, 6),
+    ("{% for i in (1..2) %}{% include 'xc' for its %}|{% endfor %}", {"xc": "{{ xc }}{% if xc == 2 %}{% continue %}{% endif %},"}, 6),
+    ("{% for i in (1..2) %}{% include 'xi' %}|{% endfor %}", {"xi": "{% for y in its %}{{ y }}{% endfor %}{% break %}"}, 6),
+    ("{% for i in (1..2) %}{% for y in its %}{% include 'xj' %}{% endfor %}|{% endfor %}", {"xj": "{{ y }}{% break %}"}, 6),
+    ("{% for i in (1..2) %}{% tablerow y in its %}{{ y }}{% break %}{% endtablerow %}|{% endfor %}", {}, 6),
+    ("{% for i in (1..2) %}{% capture c %}{% for y in its %}{{ y }}{% break %}{% endfor %}{% endcapture %}{{ c }}{% continue %}|{% endfor %}", {}, 6),
+    ("{% for i in (1..2) %}{% render 'xr' for its as y %}{% break %}{% endfor %}", {"xr": "{% for z in (1..2) %}{{ y }}{% break %}{% endfor %}"}, 12),
+    ("{% macro mx %}{% for y in its %}{{ y }}{% continue %}{% endfor %}{% endmacro %}{% for i in (1..2) %}{% call mx %}{% break %}{% endfor %}", {}, 6),
+    ("{% for i in (1..2) %}{% include 'xb' for its %}{% else %}e{% endfor %}{% for i in (1..2) %}{% include 'xc' for its %}{% endfor %}", {"xb": "{{ xb }}{% break %}", "xc": "{{ xc }}{% continue %}"}, 6),
+]
+
+
+def sequel_space(tier: str) -> list[tuple[int, tuple[str, ...], tuple[int, ...]]]:
+    out = []
+    lens2 = ((2, 3), (3, 2), (3, 3)) if tier == "quick" else ((2, 3), (3, 2), (3, 3), (2, 2), (1, 3), (3, 4))
+    for p in range(len(PREFIXES)):
+        for k in KINDS:
+            out.append((p, (k,), (3,)))
+        for kinds in itertools.product(KINDS, repeat=2):
+            for lens in lens2:
+                out.append((p, kinds, lens))
+    return out
+
+
+def check_sequel(p: int, kinds: tuple[str, ...], lengths: tuple[int, ...], res: ShardResult | None, only: int | None = None) -> list[tuple[str, Any, Any, Any]]:
+    out: list[tuple[str, Any, Any, Any]] = []
+    main, templates, data, bad = build_nest(kinds, lengths)
+    if bad:
+        return out
+    psrc, ptemplates, pbound = PREFIXES[p]
+    main = psrc + "/" + main
+    templates = {**templates, **ptemplates}
+    data = {**data, "its": [1, 2, 3]}
+    m = measure(main, templates, data)
+    case_base = {"prefix": p, "kinds": list(kinds), "lengths": list(lengths)}
+    if m[0] != "ok":
+        out.append(("C06:unlimited-render-fails:" + str(m[1]), {**case_base, "limit": None}, "renders", list(m)))
+        return out
+    out0 = m[1]
+    B = max([product_bound(lengths[: i + 1]) for i in range(len(lengths))] + [pbound, 1])
+    saw_fail = saw_ok = False
+    for L in range(1, B + 3):
+        if only is not None and only != L:
+            continue
+        got = _limited(templates, {"loop_iteration_limit": L}, main, data)
+        if res is not None:
+            res.evaluations += 1
+        extra = {**case_base, "limit_kind": "loop", "limit": L, "product_bound": B}
+        if got[0] == "ok":
+            saw_ok = True
+            if got[1] != out0:
+                out.append(("C06:loop-limit-changes-output", extra, out0, got[1]))
+        elif got == ("liquid", "LoopIterationLimitError"):
+            saw_fail = True
+            if L >= B:
+                out.append((f"C06:loop-limit-not-exceeded-but-error:after-prefix-{p}", extra, out0, list(got)))
+        else:
+            out.append((f"C06:loop-limit-wrong-outcome:{got[0]}:{got[1]}", extra, "output or LoopIterationLimitError", list(got)))
+    if res is not None:
+        if saw_fail and saw_ok:
+            res.nontrivial.add(h64([p, kinds, lengths, "sequel"]))
+        res.outcomes.add(h64([p, len(out0)]))
+    return out
+
+
 def _boundary(kinds: tuple[str, ...]) -> str:
     """Which loop-like constructs other than plain `for` take part in the nest (the suspects)."""
     return "+".join(sorted({k for k in kinds if k not in ("F", "H", "FC", "FB")})) or "for-only"
@@ -258,7 +359,10 @@ def _boundary(kinds: tuple[str, ...]) -> str:
 
 # ------------------------------------------------------------------ cyclic graphs
 
-EDGE_KINDS = ("include", "render", "extends", "include-in-for", "render-in-capture", "macro-self")
+EDGE_KINDS = ("include", "render", "extends", "include-in-for", "render-in-capture", "macro-self", "include-in-block", "render-in-block")
+# edge kinds that make the template a child of another template (their markup must come first)
+EXT_KINDS = ("extends", "include-in-block", "render-in-block")
+GBASE = "<{% block b %}B{% endblock %}>"  # a fixed, acyclic base for the *-in-block edges
 
 
 def edge_src(kind: str, target: int, me: int) -> str:
@@ -269,6 +373,11 @@ def edge_src(kind: str, target: int, me: int) -> str:
         return "{% render " + t + " %}"
     if kind == "extends":
         return "{% extends " + t + " %}{% block b %}" + str(me) + "{{ block.super }}{% endblock %}"
+    if kind == "include-in-block":
+        # the cycle runs through an overriding block rendered in the base template's (block-scoped) context
+        return "{% extends 'gbase' %}{% block b %}" + str(me) + "{% include " + t + " %}{% endblock %}"
+    if kind == "render-in-block":
+        return "{% extends 'gbase' %}{% block b %}" + str(me) + "{% render " + t + " %}{% endblock %}"
     if kind == "include-in-for":
         return "{% for i in (1..2) %}{% include " + t + " %}{% endfor %}"
     if kind == "render-in-capture":
@@ -290,8 +399,10 @@ def graph_space(tier: str) -> list[tuple[tuple[tuple[str, int], ...], ...]]:
         else:
             double = []
         per_node = single + (double if n <= 2 else [])
+        if n == 3 and tier == "quick":
+            per_node = [((k, t),) for k in kinds if k not in ("macro-self", "render-in-block") for t in range(n)]
         if n == 4:
-            per_node = [((k, t),) for k in ("include", "render", "extends", "render-in-capture") for t in range(n)]
+            per_node = [((k, t),) for k in ("include", "render", "extends", "render-in-capture", "include-in-block") for t in range(n)]
         for combo in itertools.product(per_node, repeat=n):
             out.append(combo)
     return out
@@ -300,11 +411,11 @@ def graph_space(tier: str) -> list[tuple[tuple[tuple[str, int], ...], ...]]:
 def check_graph(graph: tuple, res: ShardResult | None) -> list[tuple[str, Any, Any, Any]]:
     out: list[tuple[str, Any, Any, Any]] = []
     n = len(graph)
-    templates = {}
+    templates = {"gbase": GBASE}
     for me, edges in enumerate(graph):
         body = f"[{me}]"
-        ext = [e for e in edges if e[0] == "extends"]
-        others = [e for e in edges if e[0] != "extends"]
+        ext = [e for e in edges if e[0] in EXT_KINDS]
+        others = [e for e in edges if e[0] not in EXT_KINDS]
         # extends must come first; more than one extends is itself an inheritance error (accepted outcome)
         src = "".join(edge_src(k, t, me) for k, t in ext) + body + "".join(edge_src(k, t, me) for k, t in others)
         templates[f"g{me}"] = src
@@ -318,6 +429,22 @@ def check_graph(graph: tuple, res: ShardResult | None) -> list[tuple[str, Any, A
     if res is not None:
         res.evaluations += 2
         res.nontrivial.add(h64(templates))
+    # with a small configured depth limit the nesting that is actually reached must stay within it: the chain of
+    # wrapped contexts is at most L+1 long and no scope holds more than L+2 namespaces above the 4 fixed ones
+    _install_depth_probe()
+    for L in (8, 13):  # (a scope holds 4 fixed namespaces, so limits below 5 refuse every partial)
+        _DEPTH.update(chain=0, scope=0)
+        try:
+            sys.setrecursionlimit(1000)
+            g = _limited(templates, {"context_depth_limit": L}, "{% include 'g0' %}", {})
+        finally:
+            sys.setrecursionlimit(old)
+        if res is not None:
+            res.evaluations += 1
+        if _DEPTH["chain"] > L + 1 or _DEPTH["scope"] > L + 2 + 4:
+            out.append(("C06:nesting-exceeds-configured-depth-limit", {"templates": templates, "entry": "include", "limit": L}, f"context chain <= {L + 1}, scope size <= {L + 6}", dict(_DEPTH)))
+        if not (g[0] == "liquid" and g[1] in ("ContextDepthError", "TemplateInheritanceError", "DisabledTagError")):
+            out.append((f"C06:cyclic-graph-not-stopped-by-small-depth-limit:{g[0]}:{g[1] if g[0] != 'ok' else 'rendered'}", {"templates": templates, "entry": "include", "limit": L}, "ContextDepthError", list(g)[:2] if g[0] != "ok" else ["ok", g[1][:80]]))
     for how, g in (("include", got), ("render", got2)):
         if res is not None:
             res.outcomes.add(h64(list(g)))
@@ -448,7 +575,7 @@ _SP: dict[str, Any] = {}
 
 def _spaces(tier: str) -> dict[str, Any]:
     if _SP.get("tier") != tier:
-        _SP.update(tier=tier, nests=nest_space(tier), graphs=graph_space(tier), ns=ns_programs(tier))
+        _SP.update(tier=tier, nests=nest_space(tier), graphs=graph_space(tier), ns=ns_programs(tier), sequels=sequel_space(tier))
     return _SP
 
 
@@ -462,9 +589,11 @@ def plan(tier: str, seed: int):
     for lo, hi in chunks(len(sp["ns"]), 32):
         shards.append(("ns", tier, lo, hi))
     shards.append(("depth", tier, 0, len(DEPTH_PROGS)))
+    for lo, hi in chunks(len(sp["sequels"]), 100):
+        shards.append(("sequel", tier, lo, hi))
     meta = {
-        "space_size": len(sp["nests"]) + len(sp["graphs"]) + len(sp["ns"]) + len(DEPTH_PROGS),
-        "subspaces": {"loop-nests": len(sp["nests"]), "cyclic-graphs": len(sp["graphs"]), "namespace-programs": len(sp["ns"]), "depth-programs": len(DEPTH_PROGS)},
+        "space_size": len(sp["nests"]) + len(sp["graphs"]) + len(sp["ns"]) + len(DEPTH_PROGS) + len(sp["sequels"]),
+        "subspaces": {"loop-nests": len(sp["nests"]), "nest-after-prefix": len(sp["sequels"]), "cyclic-graphs": len(sp["graphs"]), "namespace-programs": len(sp["ns"]), "depth-programs": len(DEPTH_PROGS)},
         "bounds": {"nest_depth": 3 if tier == "quick" else 4, "graph_nodes": 3 if tier == "quick" else 4, "level_kinds": list(KINDS)},
     }
     return shards, meta
@@ -483,6 +612,10 @@ def run_shard(shard) -> ShardResult:
         elif kind == "graph":
             for sig, case, exp, obs in check_graph(sp["graphs"][i], res):
                 res.violation(sig, {"part": "graph", "index": i, "tier": tier, **case}, exp, obs)
+        elif kind == "sequel":
+            p, kinds, lens = sp["sequels"][i]
+            for sig, case, exp, obs in check_sequel(p, kinds, lens, res):
+                res.violation(sig, {"part": "sequel", **case}, exp, obs)
         elif kind == "ns":
             src, templates = sp["ns"][i]
             for sig, case, exp, obs in check_ns(src, templates, res):
@@ -515,6 +648,9 @@ def replay(case: dict[str, Any]) -> list[dict[str, Any]]:
     if part == "nest":
         only = (case["limit_kind"], case["limit"]) if case.get("limit") else None
         for sig, c, exp, obs in check_nest(tuple(case["kinds"]), tuple(case["lengths"]), None, only=only):
+            res.violation(sig, case, exp, obs)
+    elif part == "sequel":
+        for sig, c, exp, obs in check_sequel(case["prefix"], tuple(case["kinds"]), tuple(case["lengths"]), None, only=case.get("limit")):
             res.violation(sig, case, exp, obs)
     elif part == "graph":
         for sig, c, exp, obs in check_graph(_spaces(case.get("tier", "quick"))["graphs"][case["index"]], None):
